@@ -3,7 +3,9 @@ import NdnModel.PyDict
   Model of src/ndn/app_support/svs/sync.py : SvsInst.sync_handler, aggregate, on_timer (the
   decision taken when the timer fires), new_data, express_sync_interest (the vector carried).
   Time is abstracted: `timer` is an event the environment may deliver at any point.
-  Input vectors are the *decoded* entries (StateVecWrapper.parse is the C08 codec).
+  Input vectors are the *decoded* entries; the byte-level half (the bytes of the name component, decoded with the
+  generic TLV decoder of C08 over the regenerated StateVecWrapper schema, and the `except` clause) is
+  NdnModel/SvsBytes.lean.
 -/
 namespace Ndn.Svs
 open Ndn
